@@ -257,6 +257,7 @@ def run_tlc(
             "java",
             "-XX:+UseParallelGC",
             "-Xss64m",
+            f"-Djava.io.tmpdir={work}",      # TLC unpacks its standard modules into java.io.tmpdir (tlc-*)
             "-cp",
             "/opt/veriftools/tla/tla2tools.jar:/opt/veriftools/tla/CommunityModules-deps.jar",
             "tlc2.TLC",
